@@ -18,6 +18,9 @@ RULE = ('LISTS: (L1) every labelled list tree over {itemize,enumerate,descriptio
         'whose innermost item holds two sibling lists of 1-3 items each, all 9 kind pairs, with or without text around '
         'them, an enumerate sibling also with \\setcounter{enum..}{4} before its first item; in every list of every family each '
         'item must carry position start+1.. in order (enumerate: a ref showing that number). '
+        '(LE) items without a body: every sequence of <= 4 (depth 2: 3, depth 3: 2; thorough 5/4/3) items over {paragraph, empty} '
+        'x optional [term] with >= 1 empty item, all kinds, at nesting depth 1-3, the empty \\item followed by blank / newline / '
+        'blank line; expected: still one (empty) item per \\item. '
         '(LD) chains of depth 5 and 6 (3 kind rotations, 1-3 innermost items, every level with a following item), bare and article. '
         'TABLES: (T1) every preamble of n columns over column types x every subset of the n+1 bar positions x every '
         'spelling (plain, spaced, @{} at every gap on either side of a bar, >{..} before / <{..} after every column, every *{k}{unit} folding with 1- and 2-column units) x 3 bodies; '
@@ -662,6 +665,28 @@ def gen_LS(d, full):
                                     yield {'fam': 'list', 'ast': ast, 'article': 1}
 
 
+def gen_LE(depth, maxlen):
+    """items without a body: every sequence of 1..maxlen items over {one paragraph, empty} x optional [term] with at least
+    one empty item (so: first, middle, last, several in a row), all three kinds, as the list at nesting depth `depth`
+    (inside a chain of lists whose items hold it bare or between text); case field esep = what follows the empty
+    \\item: blank, newline or blank line"""
+    K = R.LIST_KINDS
+    for kind in K:
+        for n in range(1, maxlen + 1):
+            for cs in itertools.product(('P1', 'EM'), repeat=n):
+                if 'EM' not in cs:
+                    continue
+                for ts in itertools.product((0, 1), repeat=n):
+                    inner = [kind, [[t, c, None] for t, c in zip(ts, cs)]]
+                    for ctype in (('NB', 'NT') if depth > 1 else (None,)):
+                        for rot in (range(3) if depth > 1 else (0,)):
+                            ast = inner
+                            for level in range(depth - 2, -1, -1):
+                                ast = [K[(level + rot) % 3], [[0, 'P1', None], [0, ctype, ast], [0, 'P1', None]]]
+                            for esep in (0, 1, 2):
+                                yield {'fam': 'list', 'ast': ast, 'esep': esep}
+
+
 def gen_LD(dmax):
     """lists nested deeper than 4 (LaTeX allows 6 levels when the kinds are mixed): a chain of depth 5..dmax, every level
     with a second item after the nested list, innermost list with 1-3 items; 3 kind rotations, nest bare or with text"""
@@ -702,7 +727,7 @@ def gen_L2(depth, maxitems, total, min_total, min_width=1, min_depth=1, diag=0):
 
 # ---------------------------------------------------------------------------
 FAMILIES = {
-    'T1': gen_T1, 'T2': gen_T2, 'T2C': gen_T2C, 'T2V': gen_T2V, 'T5': gen_T5, 'T6': gen_T6, 'LS': gen_LS, 'LD': gen_LD, 'T3': gen_T3, 'T3mc': gen_T3mc, 'T4': gen_T4,
+    'T1': gen_T1, 'T2': gen_T2, 'T2C': gen_T2C, 'T2V': gen_T2V, 'T5': gen_T5, 'T6': gen_T6, 'LS': gen_LS, 'LD': gen_LD, 'LE': gen_LE, 'T3': gen_T3, 'T3mc': gen_T3mc, 'T4': gen_T4,
     'L1': gen_lists, 'L2': gen_L2,
 }
 
@@ -733,6 +758,10 @@ def plan(tier):
             p.append(('LS', (d, 0), 4, {}))
         p.append(('LD', (6,), 1, {}))
         p.append(('LD', (6,), 1, {'article': 1}))
+        p.append(('LE', (1, 4), 2, {}))
+        p.append(('LE', (2, 3), 4, {}))
+        p.append(('LE', (3, 2), 2, {}))
+        p.append(('LE', (1, 3), 1, {'article': 1}))
         for n, r in ((2, 1), (2, 2), (3, 1), (3, 2)):
             p.append(('T2C', (n, r, 2, 0), 2, {}))
         p.append(('T3', (1, 1, KINDS_FULL), 1, {}))
@@ -778,6 +807,10 @@ def plan(tier):
             p.append(('LS', (d, 1), 16, {}))
         p.append(('LD', (6,), 1, {}))
         p.append(('LD', (6,), 1, {'article': 1}))
+        p.append(('LE', (1, 5), 8, {}))
+        p.append(('LE', (2, 4), 16, {}))
+        p.append(('LE', (3, 3), 16, {}))
+        p.append(('LE', (1, 4), 4, {'article': 1}))
         p.append(('T3', (1, 1, KINDS_FULL), 1, {}))
         p.append(('T3', (2, 1, KINDS_FULL), 1, {}))
         p.append(('T3', (1, 2, KINDS_FULL), 1, {}))
